@@ -46,6 +46,70 @@ theorem header_length (h : Header) : (header.enc h).length = 8 := by
 
 /-! ### Clock part of suspend/resume: bisimulation up to the host anchors -/
 open TpmVerif.Model.Clock in
+/-! ### unique decomposition: what the blob format guarantees for every codec built from the combinators -/
+
+/-- **no blob is a prefix of another**: if two encodings, each followed by anything, give the same bytes, the values
+    and the remainders are the same — a blob followed by further blocks can be split in only one way -/
+theorem encodings_prefix_free {α} (c : Codec α) (a b : α) (r1 r2 : Bytes) (h : c.enc a ++ r1 = c.enc b ++ r2) :
+    a = b ∧ r1 = r2 := by
+  have ha := c.rt a r1
+  rw [h, c.rt b r2] at ha
+  have := Prod.mk.inj (Option.some.inj ha)
+  exact ⟨this.1.symm, this.2.symm⟩
+
+/-- an encoding that begins with another encoding IS that encoding -/
+theorem no_proper_prefix {α} (c : Codec α) (a b : α) (r : Bytes) (h : c.enc a = c.enc b ++ r) : a = b ∧ r = [] := by
+  have := encodings_prefix_free c a b [] r (by simpa using h)
+  exact ⟨this.1, this.2.symm⟩
+
+/-- decoding is determined by the encoded prefix alone: whatever follows a blob is handed on untouched -/
+theorem dec_ignores_rest {α} (c : Codec α) (a : α) (r1 r2 : Bytes) :
+    (c.dec (c.enc a ++ r1)).map (·.1) = (c.dec (c.enc a ++ r2)).map (·.1) := by
+  rw [c.rt, c.rt]; rfl
+
+/-- **a sequence of blobs parses in one way only**: two equally long lists of values whose concatenated encodings
+    agree are the same list (the array blocks of the state blobs: PCR banks, session slots, object slots) -/
+theorem concat_unique {α} (c : Codec α) : ∀ (xs ys : List α) (r1 r2 : Bytes), xs.length = ys.length →
+    (xs.map c.enc).flatten ++ r1 = (ys.map c.enc).flatten ++ r2 → xs = ys ∧ r1 = r2 := by
+  intro xs
+  induction xs with
+  | nil =>
+    intro ys r1 r2 hl h
+    cases ys with
+    | nil => exact ⟨rfl, by simpa using h⟩
+    | cons y ys => simp at hl
+  | cons x xs ih =>
+    intro ys r1 r2 hl h
+    cases ys with
+    | nil => simp at hl
+    | cons y ys =>
+      simp only [List.map_cons, List.flatten_cons, List.append_assoc] at h
+      obtain ⟨hxy, hrest⟩ := encodings_prefix_free c x y _ _ h
+      obtain ⟨i1, i2⟩ := ih ys r1 r2 (by simpa using hl) hrest
+      exact ⟨by rw [hxy, i1], i2⟩
+
+/-- decoding a list of `n` blobs one after the other returns exactly the values encoded, and the rest -/
+def decN {α} (c : Codec α) : Nat → Bytes → Option (List α × Bytes)
+  | 0, bs => some ([], bs)
+  | n + 1, bs => match c.dec bs with
+    | none => none
+    | some (a, rest) => match decN c n rest with
+      | none => none
+      | some (as, rest') => some (a :: as, rest')
+
+theorem decN_roundtrip {α} (c : Codec α) : ∀ (xs : List α) (rest : Bytes),
+    decN c xs.length ((xs.map c.enc).flatten ++ rest) = some (xs, rest) := by
+  intro xs
+  induction xs with
+  | nil => intro rest; simp [decN]
+  | cons x xs ih =>
+    intro rest
+    simp only [List.length_cons, List.map_cons, List.flatten_cons, List.append_assoc, decN, c.rt, ih]
+
+example : decN Codec.u16 2 (Codec.u16.enc 7 ++ Codec.u16.enc 9 ++ [1]) = some ([7, 9], [1]) := by
+  have := decN_roundtrip Codec.u16 [7, 9] [1]
+  simpa using this
+
 /-- states that agree on everything the TPM can observe of time -/
 def ClockEquiv (s t : Model.Clock.St) : Prop :=
   s.clock = t.clock ∧ s.gTime = t.gTime ∧ s.safe = t.safe ∧ s.resetCount = t.resetCount ∧
